@@ -5,7 +5,7 @@
 // that decreases towards the root (ASSUMED: Task::parent walks the prev chain to a node of smaller level).
 //@@ unit U-data
 //@@ default props=C07 rewrites=R1,R2,R3,R5,R13,R15 ghost="Tracked(h): Tracked<&mut DHeap>" ghostarg="Tracked(h)"
-//@@ heapmethods set_data set_if_exists get_own parent_of cache_upsert
+//@@ heapmethods set_data set_if_exists get_own parent_of cache_upsert data vars
 use vstd::prelude::*;
 use std::sync::Arc;
 verus! {
@@ -390,6 +390,138 @@ impl Task {
             }
         }
 //@@ end
+}
+
+// ---- Task::vars: what a condition, a template or a script sees as its globals (ActJsModule::vars -> Task::vars): the task's own data overlaid by the
+// data of its enclosing scopes, the OUTERMOST scope that holds a name wins
+pub open spec fn vars_of(h: DHeap, t: Tid) -> DataMap
+    decreases depth(t)
+{
+    match parent_tid(t) {
+        Some(p) => if depth(p) < depth(t) { h.data[t].union_prefer_right(vars_of(h, p)) } else { h.data[t] },
+        None => h.data[t],
+    }
+}
+impl Vars {
+    // model/vars.rs: Vars::extend (ASSUMED map semantics: union preferring the argument)
+    #[verifier::external_body]
+    pub fn extend(self, other: Vars) -> (r: Vars) ensures r@ == self@.union_prefer_right(other@) { unimplemented!() }
+}
+impl Task {
+    // R7: `self.data()`: a copy of the task's own data
+    #[verifier::external_body]
+    pub fn data(&self, Tracked(h): Tracked<&mut DHeap>) -> (r: Vars)
+        requires old(h).data.dom().contains(self.id@)
+        ensures r@ == old(h).data[self.id@], *final(h) == *old(h) { unimplemented!() }
+//@@ extract file=acts/src/scheduler/process/task.rs in="impl Task" item="fn vars" name=Task::vars
+//@@ opt attr="#[verifier::exec_allows_no_decreases_clause]"
+//@@ spec
+        requires chain_ok(*old(h), self.id@)
+        ensures
+            //# V11-the-globals-are-the-own-data-overlaid-by-the-enclosing-scopes-outermost-last
+            *final(h) == *old(h) && ret@ == vars_of(*old(h), self.id@),
+//@@ proof at=start
+        proof { lemma_ancestors_step(self.id@); }
+//@@ proof after=parent#1
+            proof {
+                // the parent's chain is the tail of this task's chain
+                assert(ancestors(self.id@) == seq![parent.id@] + ancestors(parent.id@));
+                assert(chain_ok(*h, parent.id@)) by {
+                    assert(h.data.dom().contains(ancestors(self.id@)[0]));
+                    assert forall|i: int| 0 <= i < ancestors(parent.id@).len() implies h.data.dom().contains(#[trigger] ancestors(parent.id@)[i]) by {
+                        assert(ancestors(self.id@)[i + 1] == ancestors(parent.id@)[i]);
+                    }
+                }
+            }
+//@@ end
+}
+// ---- read-your-writes as a lemma over the contracts (C07: "is seen by every later condition, script and message"): when every scope on a task's chain that
+// holds the name holds the value v (the post V9 of Task::update_data for the writer's chain), BOTH ways of reading the name from that task yield v --
+// the outermost-first merge of Task::vars and the nearest-first search of Task::find (post V6)
+pub proof fn lemma_vars_sees_the_write(h: DHeap, t: Tid, k: Key, v: JsonValue)
+    requires
+        forall|i: int| 0 <= i < ancestors(t).len() + 1 && h.data[#[trigger] (seq![t] + ancestors(t))[i]].dom().contains(k) ==> h.data[(seq![t] + ancestors(t))[i]][k] == v,
+        exists|i: int| 0 <= i < ancestors(t).len() + 1 && h.data[#[trigger] (seq![t] + ancestors(t))[i]].dom().contains(k),
+    ensures vars_of(h, t).dom().contains(k) && vars_of(h, t)[k] == v
+    decreases depth(t)
+{
+    lemma_ancestors_step(t);
+    let chain = seq![t] + ancestors(t);
+    assert(chain[0] == t);
+    match parent_tid(t) {
+        Some(p) => {
+            if depth(p) < depth(t) {
+                let pc = seq![p] + ancestors(p);
+                assert(ancestors(t) == pc);
+                assert forall|i: int| 0 <= i < pc.len() implies chain[i + 1] == #[trigger] pc[i] by {}
+                if exists|j: int| 0 <= j < ancestors(p).len() + 1 && h.data[#[trigger] pc[j]].dom().contains(k) {
+                    assert forall|i: int| 0 <= i < ancestors(p).len() + 1 && h.data[#[trigger] pc[i]].dom().contains(k) implies h.data[pc[i]][k] == v by {
+                        assert(chain[i + 1] == pc[i]);
+                        assert(h.data[chain[i + 1]].dom().contains(k));
+                    }
+                    lemma_vars_sees_the_write(h, p, k, v);
+                } else {
+                    // no enclosing scope holds the name: the task itself does
+                    let i = choose|i: int| 0 <= i < ancestors(t).len() + 1 && h.data[#[trigger] chain[i]].dom().contains(k);
+                    if i > 0 { assert(chain[i] == pc[i - 1]); assert(h.data[pc[i - 1]].dom().contains(k)); assert(false); }
+                    assert(h.data[t].dom().contains(k));
+                    lemma_vars_dom(h, p, k);
+                }
+            } else {
+                assert(ancestors(t) =~= Seq::<Tid>::empty());
+                let i = choose|i: int| 0 <= i < ancestors(t).len() + 1 && h.data[#[trigger] chain[i]].dom().contains(k);
+                assert(i == 0);
+            }
+        }
+        None => {
+            assert(ancestors(t) =~= Seq::<Tid>::empty());
+            let i = choose|i: int| 0 <= i < ancestors(t).len() + 1 && h.data[#[trigger] chain[i]].dom().contains(k);
+            assert(i == 0);
+        }
+    }
+}
+// a name is among the globals of a task only if some scope on its chain holds it
+pub proof fn lemma_vars_dom(h: DHeap, t: Tid, k: Key)
+    ensures vars_of(h, t).dom().contains(k) ==> exists|i: int| 0 <= i < ancestors(t).len() + 1 && h.data[#[trigger] (seq![t] + ancestors(t))[i]].dom().contains(k)
+    decreases depth(t)
+{
+    lemma_ancestors_step(t);
+    let chain = seq![t] + ancestors(t);
+    if vars_of(h, t).dom().contains(k) {
+        if h.data[t].dom().contains(k) { assert(chain[0] == t); }
+        else {
+            match parent_tid(t) {
+                Some(p) => {
+                    if depth(p) < depth(t) {
+                        lemma_vars_dom(h, p, k);
+                        let pc = seq![p] + ancestors(p);
+                        let j = choose|j: int| 0 <= j < ancestors(p).len() + 1 && h.data[#[trigger] pc[j]].dom().contains(k);
+                        assert(chain[j + 1] == pc[j]);
+                    }
+                }
+                None => {}
+            }
+        }
+    }
+}
+// THEOREM (C07, read-your-writes for the writer): if heap b satisfies the posts V5 and V9 of `w.update_data(vars)`, then for every non-private name k of
+// `vars` the globals of w in b (what its later conditions, templates and scripts see) hold the written value
+pub proof fn theorem_the_writer_reads_its_write(b: DHeap, w: Tid, own_before: DataMap, vars: DataMap, k: Key)
+    requires
+        // V5
+        b.data[w] == own_before.union_prefer_right(vars),
+        // V9
+        forall|i: int, kk: Key| vars.dom().contains(kk) && !is_private(kk) && #[trigger] declares(b.data, seq![w] + ancestors(w), kk, i) ==> b.data[(seq![w] + ancestors(w))[i]][kk] == vars[kk],
+        vars.dom().contains(k), !is_private(k),
+    ensures vars_of(b, w).dom().contains(k) && vars_of(b, w)[k] == vars[k]
+{
+    let chain = seq![w] + ancestors(w);
+    assert(chain[0] == w);
+    assert(b.data[chain[0]].dom().contains(k));
+    assert forall|i: int| 0 <= i < ancestors(w).len() + 1 && b.data[#[trigger] chain[i]].dom().contains(k) implies b.data[chain[i]][k] == vars[k] by {
+        assert(declares(b.data, chain, k, i));
+    }
+    lemma_vars_sees_the_write(b, w, k, vars[k]);
 }
 } // verus!
 fn main() {}
